@@ -1,9 +1,165 @@
-(* C14 -- property theorems only. *)
+(* C14 -- property theorems only.  Each is closed by [exact] of a lemma proved in Proofs/C14.v or
+   Proofs/C14_b.v; Print Assumptions beneath each.  [spec_params] are the constants the property speaks about,
+   [code_params] the ones regenerated from the source; C14_facts_ok identifies them. *)
 From Coq Require Import List NArith ZArith Bool.
 Import ListNotations.
-Require Import Verif.Lib.Wire Verif.Gen.Facts_C03 Verif.Model.C03 Verif.Proofs.C03 Verif.Gen.Facts_C14 Verif.Model.C14 Verif.Proofs.C14.
+Require Import Verif.Lib.Wire Verif.Gen.Facts_C03 Verif.Model.C03 Verif.Proofs.C03 Verif.Gen.Facts_C14 Verif.Model.C14
+               Verif.Proofs.C14 Verif.Proofs.C14_b Verif.Proofs.C14_c.
 
-(* the regenerated constants of the anchored code are the ones the property speaks about *)
+(* the regenerated constants of the anchored code (hidden attribute names, what is assigned inside and after
+   the with-block, request_iface.combined, the classes caught by the tween / _error_handler /
+   invoke_exception_view, the contexts of the default exception-response view, the contexts and exception_only
+   flags of add_notfound_view / add_forbidden_view / add_exception_view) are the ones the property speaks about *)
 Theorem C14_facts_ok : code_params = spec_params.
 Proof. exact facts_ok. Qed.
 Print Assumptions C14_facts_ok.
+
+(* hide_attrs_restores.  Full-strength statement (every attribute map and EVERY name list) is false of the
+   faithful model, see C14_hide_attrs_restores_refuted: a name listed twice loses its value.  Partial: name
+   lists without repetitions; any attribute map, any body (returning or raising). *)
+Theorem C14_hide_attrs_restores_partial : forall (A : Type) (names : list text) (body : amap -> A * amap) (m : amap) k,
+  NoDup names -> In k names -> aget k (snd (hide_attrs names body m)) = aget k m.
+Proof. exact @hide_attrs_restores. Qed.
+Print Assumptions C14_hide_attrs_restores_partial.
+
+Theorem C14_hide_attrs_restores_refuted :
+  exists (names : list text) (m : amap) k,
+    In k names /\ ~ NoDup names /\
+    aget k (snd (hide_attrs names (fun a => (tt, a)) m)) <> aget k m.
+Proof. exact hide_attrs_restores_dup_refuted. Qed.
+Print Assumptions C14_hide_attrs_restores_refuted.
+
+Theorem C14_hide_attrs_frame : forall (A : Type) (names : list text) (body : amap -> A * amap) (m : amap) k,
+  ~ In k names ->
+  aget k (snd (hide_attrs names body m)) = aget k (snd (body (fst (hide_pop names m [])))).
+Proof. exact @hide_attrs_frame. Qed.
+Print Assumptions C14_hide_attrs_frame.
+
+(* exception_only_split: a declaration whose predicates are accepted is found under the ordinary classifier
+   iff it is not exception_only and under the exception classifier iff its context is an exception type;
+   exception_only on a non-exception context registers nothing *)
+Theorem C14_exception_only_split : forall P names nm d c xonly isexc,
+  effective_ctx P nm d = (c, xonly, isexc) ->
+  make names (args_kw (with_ctx (d_args d) c)) <> None ->
+  let regs := regs_of_decl P names nm d in
+  under_cls view_classifier regs = negb xonly
+  /\ under_cls exc_classifier_id regs = isexc && negb (xonly && negb isexc)
+  /\ (xonly = true -> isexc = false -> regs = []).
+Proof. exact exception_only_split. Qed.
+Print Assumptions C14_exception_only_split.
+
+(* no_view_propagates_same_object: the exception-view lookup ends in Not Found (nothing registered for any
+   class of the object, or every predicate mismatched) => the SAME object propagates out of the excview
+   tween, no view body runs, and response / exc_info / exception are what they were before *)
+Theorem C14_no_view_propagates_same_object : forall P W ri e st,
+  NoDup (p_hidden P) -> p_handler_reraises P = true -> fresh_ok P W site_tween ->
+  not_found (call_view (w_reg W) exc_classifier_id (exc_request P W ri e)) ->
+  let r := excview_tween P W ri (Raise e) st in
+  fst r = Raise e
+  /\ st_log (snd r) = st_log st
+  /\ forall k, In k (p_hidden P) -> aget k (st_attrs (snd r)) = aget k (st_attrs st).
+Proof. exact no_view_propagates. Qed.
+Print Assumptions C14_no_view_propagates_same_object.
+
+(* the same for a direct request.invoke_exception_view(reraise=rr): attributes restored, no body ran, and
+   what is raised is the original (reraise) or the framework's HTTPNotFound / PredicateMismatch *)
+Theorem C14_invoke_exception_view_no_view : forall P W ri site rr e st,
+  NoDup (p_hidden P) ->
+  not_found (call_view (w_reg W) exc_classifier_id (exc_request P W ri e)) ->
+  let r := iev P W ri site rr e st in
+  st_log (snd r) = st_log st
+  /\ (forall k, In k (p_hidden P) -> aget k (st_attrs (snd r)) = aget k (st_attrs st))
+  /\ (fst r = Raise (if rr then e else fresh_of_class (p_none_raises P) site)
+      \/ fst r = Raise (if rr && isa W (p_iev_catches P) (fresh_pme site) then e else fresh_pme site)).
+Proof. exact iev_not_found. Qed.
+Print Assumptions C14_invoke_exception_view_no_view.
+
+(* excview_sees_exception: the view the lookup selects runs exactly once; it sees the raised object as its
+   context, as request.exception and in request.exc_info, and no request.response; a response (a new one, or
+   the exception itself through the default view) leaves exception / exc_info set to the raised object and
+   request.response as before; a view that fails leaves all three as before and its own exception propagates
+   (except an HTTPNotFound, which _error_handler takes for "no view") *)
+Theorem C14_excview_sees_exception : forall W ri e st t,
+  isa W cn_Exception e = true ->
+  call_view (w_reg W) exc_classifier_id (exc_request spec_params W ri e) = Ran t ->
+  b_perm (body_of (w_bodies W) t) && ri_deny ri = false ->
+  let r := excview_tween spec_params W ri (Raise e) st in
+  st_log (snd r) = st_log st ++ [EBody t e (seen_snapshot e)]
+  /\ rendered W None t e (snap (st_attrs st)) (fst r) (snap (st_attrs (snd r))).
+Proof. exact excview_view_runs. Qed.
+Print Assumptions C14_excview_sees_exception.
+
+(* excview_nearest_class: which view -- C03's lookup theorem instantiated with the exception classifier, the
+   resolution order of the raised OBJECT as context order and request_iface.combined as request order.
+   Partial in the same way as C03_lookup_winner_partial (no accept=). *)
+Theorem C14_excview_nearest_class_partial : forall ao regs P W ri e,
+  Forall reg_wf regs -> NoDup (map key regs) -> no_accept regs -> order_respects regs ->
+  NoDup (q_req_sro (exc_request P W ri e)) -> NoDup (x_sro (find_exc (w_excs W) e)) ->
+  spec_ok exc_classifier_id regs (exc_request P W ri e)
+          (call_view (register_all ao regs) exc_classifier_id (exc_request P W ri e)) = true.
+Proof. exact excview_nearest_class. Qed.
+Print Assumptions C14_excview_nearest_class_partial.
+
+(* http_exception_is_response: an HTTP exception for which the declarative order allows only default
+   exception-response views is itself the response and stays request.exception *)
+Theorem C14_http_exception_is_response : forall ao regs W ri e st,
+  w_reg W = register_all ao regs ->
+  Forall reg_wf regs -> NoDup (map key regs) -> no_accept regs -> order_respects regs ->
+  NoDup (q_req_sro (exc_request spec_params W ri e)) -> NoDup (x_sro (find_exc (w_excs W) e)) ->
+  isa W cn_Exception e = true -> status_of W e <> 0%N ->
+  spec_winners exc_classifier_id regs (exc_request spec_params W ri e) <> [] ->
+  (forall w, In w (spec_winners exc_classifier_id regs (exc_request spec_params W ri e)) ->
+             body_of (w_bodies W) (r_tag w) = mkBody false ARetCtx false) ->
+  let r := excview_tween spec_params W ri (Raise e) st in
+  fst r = Resp (RExc e)
+  /\ aget hn_exception (st_attrs (snd r)) = Some e /\ aget hn_exc_info (st_attrs (snd r)) = Some e
+  /\ aget hn_response (st_attrs (snd r)) = aget hn_response (st_attrs st).
+Proof. exact http_exception_is_response. Qed.
+Print Assumptions C14_http_exception_is_response.
+
+Theorem C14_unmatched_url_raises_notfound : forall P W ri st,
+  ri_root_raise ri = None ->
+  not_found (call_view (w_reg W) view_classifier (ri_req ri)) ->
+  main_handler P W ri st = (Raise id_h_nf, st) \/ main_handler P W ri st = (Raise id_h_pme, st).
+Proof. exact unmatched_url_raises_notfound. Qed.
+Print Assumptions C14_unmatched_url_raises_notfound.
+
+Theorem C14_refused_permission_raises_forbidden : forall P W ri st t,
+  ri_root_raise ri = None ->
+  call_view (w_reg W) view_classifier (ri_req ri) = Ran t ->
+  b_perm (body_of (w_bodies W) t) = true -> ri_deny ri = true ->
+  main_handler P W ri st = (Raise id_h_forb, st).
+Proof. exact refused_permission_raises_forbidden. Qed.
+Print Assumptions C14_refused_permission_raises_forbidden.
+
+(* what the tween does not catch, and responses, pass through untouched *)
+Theorem C14_not_caught_passes : forall P W ri e st,
+  isa W (p_tween_catches P) e = false -> excview_tween P W ri (Raise e) st = (Raise e, st).
+Proof. exact not_caught_passes. Qed.
+Print Assumptions C14_not_caught_passes.
+
+Theorem C14_response_passes : forall P W ri r st, excview_tween P W ri (Resp r) st = (Resp r, st).
+Proof. exact response_passes. Qed.
+Print Assumptions C14_response_passes.
+
+(* The executable judge of the property (Model/C14.v [judge]: the function the check applies to the
+   IMPLEMENTATION's event trace) accepts the trace of the model for every request: whatever reaches the excview
+   tween -- and whatever a tween below hands to request.invoke_exception_view() -- is rendered by a view the
+   declarative order [spec_winners] allows (resolution order of the raised object, combined request interface,
+   predicates), that view saw the object as context / request.exception / exc_info and no request.response,
+   the attributes afterwards are as the property says; with no winner the same object propagates and the
+   attributes are restored.  Hypotheses: C03's (partial as C03_lookup_winner_partial: no accept=), duplicate-free
+   oracle resolution orders, and the isinstance table says of the framework-made objects what they are.
+   Non-vacuity: Proofs/C14_c.v [judge_accepts_model_nonvacuous]. *)
+Theorem C14_judge_accepts_model_partial : forall ao regs W ri,
+  w_reg W = register_all ao regs ->
+  Forall reg_wf regs -> NoDup (map key regs) -> no_accept regs -> order_respects regs ->
+  (forall e, NoDup (q_req_sro (exc_request spec_params W ri e))) ->
+  (forall e, NoDup (x_sro (find_exc (w_excs W) e))) ->
+  isa W cn_Exception ctx_resource = false ->
+  (forall site, In site [site_under; site_tween] ->
+     isa W cn_HTTPNotFound (fresh_nf site) = true /\ isa W cn_HTTPNotFound (fresh_pme site) = true
+     /\ isa W cn_Exception (fresh_pme site) = true) ->
+  judge regs W ri (run_request spec_params W ri) = true.
+Proof. exact judge_accepts_model. Qed.
+Print Assumptions C14_judge_accepts_model_partial.
